@@ -98,7 +98,7 @@ type Ledger struct {
 	// client (e.g. documents that also receive REST patches).
 	SkipKeys map[string]bool
 	mu       sync.Mutex
-	offered map[string]bool // duid-independent: cuid|seq|lamport|type|bodyhash
+	offered  map[string]bool // duid-independent: cuid|seq|lamport|type|bodyhash
 }
 
 // NewLedger creates an empty ledger.
